@@ -57,6 +57,14 @@ package is.hail.types.virtual {
 }
 
 package is.hail.types.encoded {
+  import is.hail.collection.compat.immutable.ArraySeq
+  import is.hail.types.virtual._
+  import is.hail.utils._
+
+  // The harness inserts here, verbatim from the working tree: `case class EField` (EBaseStruct.scala) and
+  // `object EType { def fromPythonTypeEncoding ... }` (EType.scala) -- a companion must share the class's scope.
+  //@@SLICED_ETYPE@@
+
   abstract class EType {
     def required: Boolean
     def _toPretty: String
